@@ -11,3 +11,7 @@ open GoSQLXModel
 #print axioms Props.C19.validate_exit_iff
 #print axioms Props.C19.check_exit_iff
 #print axioms Props.C19.check_mode_writes_nothing
+#print axioms Fs.mem_crashStates_cons
+#print axioms Fs.crash_frame
+#print axioms Props.C19.all_files_old_or_new
+#print axioms Props.C19.other_paths_untouched
